@@ -64,7 +64,8 @@ def gen_case(rng):
             ref = pathl
         str_ok = can_dot
     if kind == "dangling" and not cross:
-        ref = rng.pick(["nope", "tgt.zz", ["tgt", "zz"], 5, None, {"$path": "tgt"}, "t.sub.deeper.x"])
+        ref = rng.pick(["nope", "tgt.zz", ["tgt", "zz"], 5, None, {"$path": "tgt"}, "t.sub.deeper.x", [], "", [[]], {"$match": {"name": "T"}},
+                        [{"name": "T"}], True])
     if kind in ("merge_str", "replace_str") and not str_ok:
         kind = "replace_map" if kind == "replace_str" else "merge_map"
     # host
